@@ -139,10 +139,12 @@ def run_flows_case(procs, flows, naming):
         return fail(f"processes {[(p.name, p.id) for p in pr.values()]}")
 
     def expected_name(s, d, o):
+        # the FORMAT of generated names is the naming function's business; the property only demands that
+        # the flow is stored under the generated or the overriding name
         if o is not None:
             return o
-        i, j = procs.index(s), procs.index(d)
-        return {None: f"{s} => {d}", "arrow": f"{s} => {d}", "nospace": f"{s.replace(' ', '_')}_to_{d.replace(' ', '_')}", "ids": f"F{i}_{j}", "custom": f"<{d}|{s}>"}[naming]
+        fns = {None: flodym.flow_naming.process_names_with_arrow, "arrow": flodym.flow_naming.process_names_with_arrow, "nospace": flodym.flow_naming.process_names_no_spaces, "ids": flodym.flow_naming.process_ids, "custom": lambda a, b: f"<{b.name}|{a.name}>"}
+        return fns[naming](flodym.Process(name=s, id=procs.index(s)), flodym.Process(name=d, id=procs.index(d)))
 
     names = [expected_name(s, d, o) for s, d, _, o in flows]
     if len(set(names)) == len(names):
